@@ -53,6 +53,7 @@ def run(ctx):
                 "every step; (B) in-place API on sources of copy/clone/shallow_copy/transpose/conj…: observers of an item assignment == objects sharing the array == "
                 "Lean heap model; (C) MPS/MPO methods and algorithms; (D) PEPS / DoublePepsTensor methods; non-trivial = the step has >=1 tensor operand with blocks")
     part_tensor_programs(ctx)
+    part_function_table(ctx)
     part_inplace(ctx)
     part_mps(ctx)
     part_peps(ctx)
@@ -95,6 +96,96 @@ def part_tensor_programs(ctx):
         for st in g.steps:
             ctx.count(f"A:op:{st.opname}")
         ctx.case({"part": "A", "sym": sym, "ops": [s.opname for s in g.steps]}, nontrivial=any(len(s.args) > 0 for s in g.steps))
+
+
+# ---- (A2) -----------------------------------------------------------------------------------------------------
+def part_function_table(ctx):
+    """every public function/method of the Tensor API that returns a value (numbers, factors, spectra, masks, dictionaries, arrays)
+    leaves its operand(s) bit-identical — also the tensors that SHARE storage with an operand (views taken before the call)"""
+    import yastn
+    rng = ctx.rng
+    ncase = 260 if ctx.quick else 4000
+    t0 = ctx.elapsed()
+    for it in range(ncase):
+        if ctx.elapsed() - t0 > (14 if ctx.quick else 200):
+            ctx.count("A2:stopped-by-time-budget")
+            break
+        sym = rng.choice(tgen.SYM_NAMES)
+        cplx = rng.random() < 0.3
+        cfg = tgen.make_cfg(sym, rng.choice(tgen.POLICIES), "hard", dtype="complex128" if cplx else "float64")
+        kind = rng.choice(["matrix", "matrix", "general", "diag", "diag", "hermitian", "mask"])
+        l = tgen.rand_leg(rng, cfg, sym, max_sectors=3, max_dim=3)
+        if kind == "general":
+            legs = [tgen.rand_leg(rng, cfg, sym, max_sectors=3, max_dim=3) for _ in range(rng.randint(1, 4))]
+            a = tgen.rand_tensor(rng, cfg, sym, legs, cplx=cplx, drop=0.2, allow_empty=False)
+        elif kind in ("matrix", "hermitian"):
+            a = tgen.rand_tensor(rng, cfg, sym, [l, l.conj()], cplx=cplx, n=cfg.sym.zero(), drop=0.0, allow_empty=False)
+            if kind == "hermitian":
+                a = a + a.transpose((1, 0)).conj()
+        else:
+            a = yastn.eye(cfg, legs=[l, l.conj()], isdiag=True)
+            # un-normalised positive spectrum (valid input of entropy / truncation_mask), or a boolean mask
+            a._data = (np.array([rng.random() < 0.6 for _ in range(a.size)], dtype=bool) if kind == "mask"
+                       else np.array([rng.randint(1, 9) for _ in range(a.size)], dtype=np.float64))
+        if a.size == 0:
+            continue
+        if rng.random() < 0.4 and a.ndim >= 2 and not a.isdiag:
+            p = list(range(a.ndim)); rng.shuffle(p)
+            a = a.transpose(tuple(p))              # pending permutation
+        view = rng.choice([lambda x: x.shallow_copy(), lambda x: x.flip_signature(), lambda x: x.transpose(tuple(range(x.ndim))[::-1]),
+                           lambda x: x.conj_blocks() if False else x.drop_leg_history()])(a)   # shares storage with `a`
+        b = tgen.rand_tensor(rng, cfg, sym, list(a.get_legs()), cplx=cplx, n=a.n, drop=0.2, allow_empty=True) if not a.isdiag else None
+        nd = a.ndim
+        half = (tuple(range(nd // 2)), tuple(range(nd // 2, nd))) if nd >= 2 else None
+        table = [("norm", lambda: a.norm()), ("norm-inf", lambda: a.norm(p="inf")), ("to_numpy", lambda: a.to_numpy()), ("to_dense", lambda: a.to_dense()),
+                 ("to_nonsymmetric", lambda: a.to_nonsymmetric()), ("to_dict", lambda: a.to_dict()), ("save_to_dict", lambda: a.save_to_dict()),
+                 ("split_data_and_meta", lambda: yastn.split_data_and_meta(a.to_dict(level=0))), ("get_legs", lambda: a.get_legs()),
+                 ("is_consistent", lambda: a.is_consistent()), ("abs-compare", lambda: (abs(a) > 1) if hasattr(a, "__abs__") else None),
+                 ("exp", lambda: a.exp(step=0.1)), ("sqrt-abs", lambda: abs(a).sqrt()), ("real", lambda: a.real()), ("imag", lambda: a.imag()),
+                 ("reciprocal", lambda: a.reciprocal(cutoff=0.5)), ("rsqrt", lambda: abs(a).rsqrt(cutoff=0.5)), ("pow", lambda: abs(a) ** 2),
+                 ("conj", lambda: a.conj()), ("flip_charges", lambda: a.flip_charges()), ("switch_signature", lambda: a.switch_signature(axes=0)),
+                 ("remove_zero_blocks", lambda: a.remove_zero_blocks()), ("trace-all", lambda: a.trace(axes=(0, 1)) if nd == 2 else None),
+                 ("vdot", lambda: yastn.vdot(a, a)), ("allclose", lambda: yastn.allclose(a, a)), ("are_independent", lambda: yastn.are_independent(a, view)),
+                 ("item", lambda: [np.asarray(a[t]).sum() for t in a.get_blocks_charge()]), ("to_raw_tensor", lambda: a.to_raw_tensor() if len(a.struct.t) == 1 else None),
+                 ("copy", lambda: a.copy()), ("clone", lambda: a.clone()), ("mul", lambda: 2 * a), ("div", lambda: a / 2), ("neg", lambda: -a)]
+        if b is not None:
+            table += [("add", lambda: a + b), ("sub", lambda: a - b), ("allclose2", lambda: yastn.allclose(a, b)), ("vdot2", lambda: yastn.vdot(a, b)),
+                      ("tensordot-all", lambda: yastn.tensordot(a, b, axes=(tuple(range(nd)), tuple(range(nd))), conj=(1, 0)))]
+        if half and not a.isdiag:
+            table += [("svd", lambda: yastn.svd(a, axes=half)), ("svd_with_truncation", lambda: yastn.svd_with_truncation(a, axes=half, D_total=2, D_block=1)),
+                      ("qr", lambda: yastn.qr(a, axes=half)), ("svd-lowrank", lambda: yastn.svd(a, axes=half, policy="lowrank", D_block=1)),
+                      ("fuse-hard", lambda: a.fuse_legs(axes=half, mode="hard")), ("fuse-meta", lambda: a.fuse_legs(axes=half, mode="meta"))]
+        if kind in ("matrix", "hermitian"):
+            table += [("eigh", lambda: yastn.eigh(a, axes=(0, 1))) if kind == "hermitian" else ("eig", lambda: yastn.eig(a, axes=(0, 1))),
+                      ("eigh_with_truncation", lambda: yastn.eigh_with_truncation(a, axes=(0, 1), D_total=2) if kind == "hermitian" else None),
+                      ("diag", lambda: a.diag()), ("matmul", lambda: a @ a), ("exp-matrix-power", lambda: a @ a @ a)]
+        if a.isdiag and kind == "diag":
+            table += [("entropy", lambda: yastn.entropy(a)), ("entropy-renyi", lambda: yastn.entropy(a, alpha=2)),
+                      ("truncation_mask", lambda: yastn.truncation_mask(a, D_total=2, D_block=1, tol=0.1, tol_block=0.2)),
+                      ("truncation_mask_multiplets", lambda: yastn.truncation_mask_multiplets(a, D_total=2, eps_multiplet=0.1)),
+                      ("diag-to-matrix", lambda: a.diag()), ("broadcast", lambda: a.broadcast(a.diag(), axes=0)), ("sqrt", lambda: a.sqrt()),
+                      ("reciprocal-diag", lambda: a.reciprocal(cutoff=2)), ("trace-diag", lambda: a.trace())]
+        if a.isdiag and kind == "mask":
+            table += [("bitwise_not", lambda: a.bitwise_not()), ("apply_mask", lambda: a.apply_mask(yastn.ones(cfg, legs=[l, l.conj()]), axes=0)),
+                      ("mask-sum", lambda: a.trace())]
+        rng.shuffle(table)
+        for name, fn in table[:10]:
+            sa, sv = snap(a), snap(view)
+            sb = snap(b) if b is not None else None
+            try:
+                fn()
+            except Exception as e:  # noqa: BLE001 — a rejected call must leave its operands alone as well
+                ctx.count(f"A2:raised:{name}")
+            ctx.count(f"A2:fn:{name}")
+            ctx.case({"part": "A2", "sym": sym, "kind": kind, "fn": name, "pending": a.trans != tuple(range(a.ndim_n))}, nontrivial=len(a.struct.t) >= 1)
+            case = {"part": "A2", "sym": sym, "kind": kind, "fn": name, "cplx": cplx, "tensor": {"s": list(a.struct.s), "n": list(a.n), "t": [list(t) for t in a.struct.t],
+                    "D": [list(D) for D in a.struct.D], "trans": list(a.trans), "isdiag": a.isdiag}}
+            if snap(a) != sa:
+                ctx.fail("oracle", f"c15:function:{name}", f"{name}() modified its operand ({kind} tensor, {sym})", case=case, concrete=True)
+            elif snap(view) != sv:
+                ctx.fail("oracle", f"c15:function:{name}:view", f"{name}() modified a tensor sharing storage with its operand", case=case, concrete=True)
+            if b is not None and snap(b) != sb:
+                ctx.fail("oracle", f"c15:function:{name}:second", f"{name}() modified its second operand", case=case, concrete=True)
 
 
 # ---- (B) ------------------------------------------------------------------------------------------------------
@@ -335,10 +426,10 @@ def part_peps(ctx):
     import yastn
     import yastn.tn.fpeps as fpeps
     rng = ctx.rng
-    ncase = 10 if ctx.quick else 100
+    ncase = 12 if ctx.quick else 120
     t0 = ctx.elapsed()
     for it in range(ncase):
-        if ctx.elapsed() - t0 > (20 if ctx.quick else 240):
+        if ctx.elapsed() - t0 > (25 if ctx.quick else 300):
             ctx.count("D:stopped-by-time-budget")
             break
         sym = rng.choice(["U1", "Z2"])
@@ -366,6 +457,38 @@ def part_peps(ctx):
             ("env.bd.measure", lambda: fpeps.EnvBoundaryMPS(psi, opts_svd={"D_total": 8}, setup="lr").measure_1site(ops.n())),
             ("gate.apply-on-copy", lambda: psi.copy().apply_gate_(g)),
         ]
+        # arguments handed to environment methods are operands too: operator / projector containers of every accepted form
+        sites = geo.sites()
+        vecs = [ops.vec_n(val=0), ops.vec_n(val=1)]
+        p_list, p_dict = list(vecs), {s_: list(vecs) for s_ in sites}
+        p_latt = fpeps.Lattice(geo, objects={s_: list(vecs) for s_ in sites})
+        O = {"n": ops.n(), "c": c, "cp": cp, "I": I}
+        o_dict = {s_: {"n": ops.n(), "h": I - ops.n()} for s_ in sites}
+        objs.update({"p_list": p_list, "p_dict": p_dict, "p_latt": p_latt, "operators": O, "o_dict": o_dict})
+        envs = {}
+
+        def env(kind):
+            if kind not in envs:
+                if kind == "bd":
+                    envs[kind] = fpeps.EnvBoundaryMPS(psi, opts_svd={"D_total": 4}, setup="lr")
+                elif kind == "ctm":
+                    envs[kind] = fpeps.EnvCTM(psi, init="eye")
+                else:
+                    envs[kind] = fpeps.EnvBP(psi)
+            return envs[kind]
+        bond = geo.bonds()[0]
+        extra = []
+        for kind in ("bd", "ctm", "bp"):
+            extra += [(f"env.{kind}.sample:list", lambda kind=kind: env(kind).sample(p_list)),
+                      (f"env.{kind}.sample:dict", lambda kind=kind: env(kind).sample(p_dict)),
+                      (f"env.{kind}.sample:lattice", lambda kind=kind: env(kind).sample(p_latt)),
+                      (f"env.{kind}.measure_1site:dict", lambda kind=kind: env(kind).measure_1site(o_dict)),
+                      (f"env.{kind}.measure_1site:site", lambda kind=kind: env(kind).measure_1site(O["n"], site=site)),
+                      (f"env.{kind}.measure_nn", lambda kind=kind: env(kind).measure_nn(O["cp"], O["c"])),
+                      (f"env.{kind}.measure_nn:bond", lambda kind=kind: env(kind).measure_nn(O["n"], O["n"], bond=bond)),
+                      (f"env.{kind}.measure_2site", lambda kind=kind: env(kind).measure_2site(O["n"], O["n"], xrange=(0, geo.Nx), yrange=(0, geo.Ny)))]
+        rng.shuffle(extra)
+        calls += extra[: (8 if ctx.quick else len(extra))]
         for name, fn in calls:
             before = {k: snap(v) for k, v in objs.items()}
             try:
